@@ -65,7 +65,7 @@ def atan2_slot(q, bs, ty):
     let y = Q {{ dimension: PhantomData, units: PhantomData, value: p(a[1]) }};
     let x = Q {{ dimension: PhantomData, units: PhantomData, value: p(a[2]) }};
     let r = y.atan2(x);
-    format!("{{}} {{}} {{}} {{}}", sh(&p(a[1])), sh(&r.get::<uom::si::angle::radian>()), sh(&r.value), sh(&p(a[1]).atan2(p(a[2]))))"""
+    format!("{{}} {{}} {{}} {{}}", sh(&r.value), sh(&r.get::<uom::si::angle::radian>()), sh(&r.value), sh(&p(a[1]).atan2(p(a[2]))))"""
 
 
 def const_slot(ty):
